@@ -2,6 +2,7 @@ package core
 
 import (
 	"go/ast"
+	"go/token"
 	"go/types"
 )
 
@@ -89,9 +90,99 @@ func (fl *Flow) ReachFromEdge(e Edge, avoid, target func(ast.Node) bool) bool {
 	return ok
 }
 
+// SuccessEdgesOfCall returns the conditional edges on which the call's error is known to be nil
+// (the edge establishes the atomic fact `err == nil`), taken from the nearest tests of the
+// receiving variable that the call dominates. An edge of a compound test such as the false edge
+// of `err != nil && x` establishes nothing and is therefore not a success edge.
+func (fl *Flow) SuccessEdgesOfCall(body ast.Node, call *ast.CallExpr) (edges map[Edge]bool, ok bool) {
+	loc, found := fl.Locate(call)
+	if !found {
+		return nil, false
+	}
+	obj := ErrObjOfCall(fl.Info, body, call)
+	if obj == nil {
+		return nil, false
+	}
+	all := map[Edge]bool{}
+	for _, bi := range fl.rpo {
+		c := fl.CondOf(bi)
+		if c == nil {
+			continue
+		}
+		for si := 0; si < 2; si++ {
+			var fs []Fact
+			splitFacts(c, si == 0, Edge{bi, si}, &fs)
+			for _, f := range fs {
+				be, isBin := f.Expr.(*ast.BinaryExpr)
+				if !isBin || (be.Op != token.NEQ && be.Op != token.EQL) {
+					continue
+				}
+				var other ast.Expr
+				if ObjOf(fl.Info, be.X) == obj {
+					other = be.Y
+				} else if ObjOf(fl.Info, be.Y) == obj {
+					other = be.X
+				} else {
+					continue
+				}
+				if IsNilIdent(fl.Info, other) && (be.Op == token.EQL) == f.Truth {
+					all[Edge{bi, si}] = true
+				}
+			}
+		}
+	}
+	edges = map[Edge]bool{}
+	var cands []int
+	seen := map[int]bool{}
+	for e := range all {
+		blk := fl.G.Blocks[e.From]
+		condLoc := Loc{e.From, len(blk.Nodes) - 1}
+		if fl.Dominates(loc, condLoc) && !seen[e.From] {
+			seen[e.From] = true
+			cands = append(cands, e.From)
+		}
+	}
+	for _, b := range cands {
+		nearest := true
+		for _, o := range cands {
+			if o != b && fl.BlockDom(o, b) {
+				nearest = false
+			}
+		}
+		if nearest {
+			for e := range all {
+				if e.From == b {
+					edges[e] = true
+				}
+			}
+		}
+	}
+	return edges, len(edges) > 0
+}
+
+// RunsWithoutSuccess reports whether node b can execute after call a on a path that does not
+// take an edge establishing that a's error is nil (and does not pass a again).
+func (fl *Flow) RunsWithoutSuccess(body ast.Node, a *ast.CallExpr, b ast.Node) (bool, string) {
+	la, ok1 := fl.Locate(a)
+	if !ok1 {
+		return true, "not located"
+	}
+	edges, ok := fl.SuccessEdgesOfCall(body, a)
+	if !ok {
+		return true, "the error of the earlier call is not tested for nil"
+	}
+	isA := func(n ast.Node) bool { return n.Pos() <= a.Pos() && a.End() <= n.End() }
+	isB := func(n ast.Node) bool { return n.Pos() <= b.Pos() && b.End() <= n.End() }
+	if r, _ := fl.CanReach(la, edges, isA, isB); r {
+		return true, "reachable after the earlier call without passing a branch that established a nil error"
+	}
+	return false, ""
+}
+
 // OnlyAfterSuccess reports whether node b can execute only after call a returned a nil error:
-// a dominates b, a's error is tested, and b is not reachable from the failure edges
-// (without going through a again).
+// a dominates b, a's error is tested, and every path from a to b takes an edge that establishes
+// `err == nil` (so b is unreachable from the failure branches, including the undecided edge of a
+// compound test), without going through a again.
 func (fl *Flow) OnlyAfterSuccess(body ast.Node, a *ast.CallExpr, b ast.Node) (bool, string) {
 	la, ok1 := fl.Locate(a)
 	lb, ok2 := fl.Locate(b)
@@ -101,16 +192,8 @@ func (fl *Flow) OnlyAfterSuccess(body ast.Node, a *ast.CallExpr, b ast.Node) (bo
 	if !fl.Dominates(la, lb) {
 		return false, "the earlier call does not dominate the later one"
 	}
-	edges, ok := fl.FailEdgesOfCall(body, a)
-	if !ok {
-		return false, "the error of the earlier call is not tested"
-	}
-	isA := func(n ast.Node) bool { return n.Pos() <= a.Pos() && a.End() <= n.End() }
-	isB := func(n ast.Node) bool { return n.Pos() <= b.Pos() && b.End() <= n.End() }
-	for e := range edges {
-		if fl.ReachFromEdge(e, isA, isB) {
-			return false, "reachable from the failure branch of the earlier call"
-		}
+	if bad, why := fl.RunsWithoutSuccess(body, a, b); bad {
+		return false, why
 	}
 	return true, ""
 }
